@@ -555,6 +555,13 @@ pub fn run(head: &str, steps: &str) -> Result<String, String> {
                 let ok = wait_until(3000, || shared.current().map(|l| l.0.lock().unwrap().packets_seen >= n).unwrap_or(false));
                 if !ok { notes.push(format!("waitwire-timeout:{}", n)); }
             }
+            "waitpub" => {
+                // waitpub:<n>: until the listener has been given n inbound publishes (no deadline in the property: a loaded
+                // machine may take its time), at most 8 s
+                let n: usize = parts.get(1).and_then(|x| x.parse().ok()).unwrap_or(1);
+                let ok = wait_until(8000, || events.lock().unwrap().iter().filter(|e| e.starts_with("Publish.")).count() >= n);
+                if !ok { notes.push(format!("waitpub-timeout:{}", n)); }
+            }
             "waitconns" => {
                 let n: usize = parts.get(1).and_then(|x| x.parse().ok()).unwrap_or(1);
                 let ok = wait_until(5000, || shared.links.lock().unwrap().len() >= n);
